@@ -252,6 +252,9 @@ def make_case(seed, i, force_end=None, kinds_bias=(), steer_named=False):
                     # a local path that leads through a regular file (a slip while typing `../other/model`): the directory can
                     # neither be read nor watched, and not because it does not exist
                     bad_url = "./%s/sub" % r.choice(own).rsplit("/", 1)[1]
+                elif r.fork("toolong").chance(0.15):
+                    # ... or has a component longer than a file name can be (text pasted into the wrong place)
+                    bad_url = "../" + "x" * r.fork("toolong").randint(256, 300)
                 good = cur[mp]
                 if "imports:\n" in good:
                     bad = good.replace("imports:\n", "imports:\n  - %s\n" % bad_url, 1)
